@@ -129,6 +129,27 @@ def no_esc(s):
     return "\x1b" not in s and "\x9b" not in s and "\x9d" not in s
 
 
+def shown(text):
+    """what a terminal prints of a segment text that may contain escape sequences (control segments do): the characters
+    outside the sequences, and the number of sequences that are neither SGR nor OSC 8"""
+    if no_esc(text):
+        return text, 0
+    import term
+
+    chars, foreign = [], 0
+    for t in term.tokenize(text):
+        k = t[0]
+        if k == "T":
+            chars.append(t[1])
+        elif k in C0_RAW:
+            chars.append(C0_RAW[k])
+        elif k == "C0":
+            chars.append(t[1])
+        elif k not in ("SGR", "OSC8"):
+            foreign += 1
+    return "".join(chars), foreign
+
+
 def canon_tokens(tokens):
     """term.py tokens -> the normal form the Lean driver prints: text runs (C0 controls are ordinary characters of
     a run), SGR, OSC 8; None when the stream contains any other escape sequence."""
